@@ -794,6 +794,308 @@ Proof.
   replace (length sch1 + k - length sch1) with k by lia. exact Hn.
 Qed.
 
+(* ------------------------------------------------------------------ the executable monitors ARE the clauses *)
+
+Lemma existsb_nth {A} (p : A -> bool) l :
+  existsb p l = true <-> exists k x, nth_error l k = Some x /\ p x = true.
+Proof.
+  rewrite existsb_exists. split.
+  - intros (x & Hin & Hp). apply In_nth_error in Hin as (k & Hk). exists k, x. split; assumption.
+  - intros (k & x & Hk & Hp). exists x. split; [eapply nth_error_In; exact Hk|exact Hp].
+Qed.
+
+Lemma is_accepted_iff i en : is_accepted i en = true <-> e_mark en = Some (MAccepted i).
+Proof.
+  unfold is_accepted. destruct (e_mark en) as [[]|]; split; intro H; try discriminate H.
+  - apply Nat.eqb_eq in H. subst. reflexivity.
+  - injection H as ->. apply Nat.eqb_refl.
+Qed.
+
+Lemma starts_for_iff e en :
+  starts_for e en = true <-> exists j, e_mark en = Some (MStart j) /\ same_target j e = true.
+Proof.
+  unfold starts_for. destruct (e_mark en) as [[]|]; split; intro H; try discriminate H;
+    try (destruct H as (j' & H & _); discriminate H).
+  - exists j. split; [reflexivity|exact H].
+  - destruct H as (j' & H & Ht). injection H as ->. exact Ht.
+Qed.
+
+Lemma has_equal_iff e l : has_equal e l = true <-> exists j, In j l /\ same_target j e = true.
+Proof. unfold has_equal. apply existsb_exists. Qed.
+
+Lemma accepted_somewhere h i :
+  existsb (is_accepted i) h = true <-> exists k, mark_at h k (MAccepted i).
+Proof.
+  rewrite existsb_nth. split.
+  - intros (k & x & Hk & Hp). exists k, x. split; [exact Hk|apply is_accepted_iff; exact Hp].
+  - intros (k & x & Hk & Hm). exists k, x. split; [exact Hk|apply is_accepted_iff; exact Hm].
+Qed.
+
+Definition no_loss_at (h : list entry) (pend : list job) (i : nat) (rest : list entry) : Prop :=
+  forall k e, mark_at rest k (MArrive e) -> (exists k', mark_at h k' (MAccepted (i + k))) ->
+    (exists k' j, k < k' /\ mark_at rest k' (MStart j) /\ same_target j e = true)
+    \/ (exists j, In j pend /\ same_target j e = true).
+
+Lemma no_loss_go_iff h pend rest : forall i, no_loss_go h pend i rest = true <-> no_loss_at h pend i rest.
+Proof.
+  induction rest as [|en tl IH]; intro i; cbn [no_loss_go].
+  - split; [|reflexivity]. intros _ k e (x & Hn & _). destruct k; discriminate Hn.
+  - rewrite andb_true_iff, IH. split.
+    + intros (Hhd & Htl) k e HA Hacc. destruct k as [|k].
+      * destruct HA as (x & Hn & Hm). cbn in Hn. injection Hn as <-. rewrite Hm in Hhd.
+        rewrite Nat.add_0_r in Hacc. apply accepted_somewhere in Hacc. rewrite Hacc in Hhd. cbn [implb] in Hhd.
+        apply orb_true_iff in Hhd as [Hs|Hp].
+        -- left. apply existsb_nth in Hs as (k' & x & Hk' & Hx). apply starts_for_iff in Hx as (j & Hj & Ht).
+           exists (S k'), j. split; [lia|]. split; [exists x; split; assumption|exact Ht].
+        -- right. apply has_equal_iff. exact Hp.
+      * destruct HA as (x & Hn & Hm). cbn in Hn.
+        destruct (Htl k e) as [(k' & j & Hk & Hs & Ht)|R].
+        -- exists x. split; assumption.
+        -- replace (S i + k) with (i + S k) by lia. exact Hacc.
+        -- left. exists (S k'), j. split; [lia|]. split; [apply mark_at_cons; exact Hs|exact Ht].
+        -- right. exact R.
+    + intro H. split.
+      * destruct (e_mark en) as [[e| | | | | | |]|] eqn:Em; try reflexivity.
+        destruct (existsb (is_accepted i) h) eqn:Ea; [|reflexivity]. cbn [implb].
+        apply accepted_somewhere in Ea.
+        destruct (H 0 e) as [(k' & j & Hk & Hs & Ht)|R].
+        -- exists en. split; [reflexivity|exact Em].
+        -- rewrite Nat.add_0_r. exact Ea.
+        -- apply orb_true_iff. left. destruct k' as [|k']; [lia|].
+           destruct Hs as (x & Hn & Hm). cbn in Hn. apply existsb_nth. exists k', x. split; [exact Hn|].
+           apply starts_for_iff. exists j. split; assumption.
+        -- apply orb_true_iff. right. apply has_equal_iff. exact R.
+      * intros k e HA Hacc. destruct (H (S k) e) as [(k' & j & Hk & Hs & Ht)|R].
+        -- apply mark_at_cons. exact HA.
+        -- replace (i + S k) with (S i + k) by lia. exact Hacc.
+        -- left. destruct k' as [|k']; [lia|]. exists k', j. split; [lia|]. split; [|exact Ht].
+           destruct Hs as (x & Hn & Hm). exists x. split; assumption.
+        -- right. exact R.
+Qed.
+
+Theorem no_loss_b_iff h pend : no_loss_b h pend = true <-> no_loss h pend.
+Proof.
+  unfold no_loss_b. rewrite no_loss_go_iff. unfold no_loss_at, no_loss. split.
+  - intros H i e k HA HM. apply (H i e HA). exists k. exact HM.
+  - intros H k e HA (k' & HM). exact (H k e k' HA HM).
+Qed.
+
+Lemma arrival_iff h a e : arrival h a = Some e <-> mark_at h a (MArrive e).
+Proof.
+  unfold arrival, mark_at. split.
+  - destruct (nth_error h a) as [en|]; [|discriminate]. destruct (e_mark en) as [[]|] eqn:Em; try discriminate.
+    intro H. injection H as ->. exists en. split; [reflexivity|exact Em].
+  - intros (en & -> & ->). reflexivity.
+Qed.
+
+Lemma nth_error_skipn' {A} (l : list A) : forall a d, nth_error (skipn a l) d = nth_error l (a + d).
+Proof.
+  induction l as [|x l IH]; intros a d.
+  - destruct a; cbn; destruct d; reflexivity.
+  - destruct a as [|a]; [reflexivity|]. cbn. apply IH.
+Qed.
+
+Lemma nth_error_firstn' {A} (l : list A) : forall n d x,
+  nth_error (firstn n l) d = Some x <-> d < n /\ nth_error l d = Some x.
+Proof.
+  induction l as [|y l IH]; intros n d x.
+  - rewrite firstn_nil. split; [destruct d; discriminate|intros (_ & H); destruct d; discriminate H].
+  - destruct n as [|n]; cbn [firstn].
+    + split; [destruct d; discriminate|intros (H & _); lia].
+    + destruct d as [|d]; cbn [nth_error].
+      * split; [intro H; split; [lia|exact H]|intros (_ & H); exact H].
+      * rewrite IH. split; intros (H1 & H2); (split; [lia|exact H2]).
+Qed.
+
+Lemma window_iff h a n e :
+  existsb (fun en' => has_equal e (e_pending en')) (firstn n (skipn a h)) = true
+  <-> exists k' en j, a <= k' /\ k' < a + n /\ nth_error h k' = Some en /\ In j (e_pending en)
+                      /\ same_target j e = true.
+Proof.
+  rewrite existsb_nth. split.
+  - intros (d & x & Hn & Hp). apply nth_error_firstn' in Hn as (Hd & Hn). rewrite nth_error_skipn' in Hn.
+    apply has_equal_iff in Hp as (j & Hj & Ht). exists (a + d), x, j. repeat split; try assumption; lia.
+  - intros (k' & en & j & H1 & H2 & H3 & H4 & H5). exists (k' - a), en. split.
+    + apply nth_error_firstn'. split; [lia|]. rewrite nth_error_skipn'. replace (a + (k' - a)) with k' by lia. exact H3.
+    + apply has_equal_iff. exists j. split; assumption.
+Qed.
+
+Definition dedup_at (h : list entry) (k0 : nat) (rest : list entry) : Prop :=
+  forall k a e, mark_at rest k (MSkip a) -> mark_at h a (MArrive e) ->
+    exists k' en j, a <= k' /\ k' < k0 + k /\ nth_error h k' = Some en /\ In j (e_pending en)
+                    /\ same_target j e = true.
+
+Lemma dedup_go_iff h rest : forall k0, dedup_go h k0 rest = true <-> dedup_at h k0 rest.
+Proof.
+  induction rest as [|en tl IH]; intro k0; cbn [dedup_go].
+  - split; [|reflexivity]. intros _ k a e (x & Hn & _). destruct k; discriminate Hn.
+  - rewrite andb_true_iff, IH. split.
+    + intros (Hhd & Htl) k a e HS HA. destruct k as [|k].
+      * destruct HS as (x & Hn & Hm). cbn in Hn. injection Hn as <-. rewrite Hm in Hhd.
+        apply arrival_iff in HA. rewrite HA in Hhd. apply window_iff in Hhd as (k' & en' & j & H1 & H2 & H3 & H4 & H5).
+        exists k', en', j. repeat split; try assumption. lia.
+      * destruct HS as (x & Hn & Hm). cbn in Hn.
+        destruct (Htl k a e) as (k' & en' & j & H1 & H2 & H3 & H4 & H5); [exists x; split; assumption|exact HA|].
+        exists k', en', j. repeat split; try assumption. lia.
+    + intro H. split.
+      * destruct (e_mark en) as [[| |a| | | | |]|] eqn:Em; try reflexivity.
+        destruct (arrival h a) as [e|] eqn:Ea; [|reflexivity]. apply arrival_iff in Ea.
+        destruct (H 0 a e) as (k' & en' & j & H1 & H2 & H3 & H4 & H5); [exists en; split; [reflexivity|exact Em]|exact Ea|].
+        apply window_iff. exists k', en', j. repeat split; try assumption. lia.
+      * intros k a e HS HA. destruct (H (S k) a e) as (k' & en' & j & H1 & H2 & H3 & H4 & H5);
+          [apply mark_at_cons; exact HS|exact HA|].
+        exists k', en', j. repeat split; try assumption. lia.
+Qed.
+
+Theorem dedup_b_iff h : dedup_b h = true <-> dedup h.
+Proof.
+  unfold dedup_b. rewrite dedup_go_iff. unfold dedup_at, dedup. split.
+  - intros H a e k HA HS. destruct (H k a e HS HA) as (k' & en & j & H1 & H2 & H3 & H4 & H5).
+    exists k', en, j. repeat split; assumption.
+  - intros H k a e HS HA. destruct (H a e k HA HS) as (k' & en & j & H1 & H2 & H3 & H4 & H5).
+    exists k', en, j. repeat split; assumption.
+Qed.
+
+Lemma job_same_iff a b : job_same a b = true <-> a = b.
+Proof.
+  destruct a as [ka ra ya ua oa], b as [kb rb yb ub ob]. unfold job_same. cbn [jk jrepo jkey juid jout].
+  rewrite !andb_true_iff, !Nat.eqb_eq. split.
+  - intros ((((Hk & ->) & ->) & ->) & Ho).
+    destruct ka, kb; try discriminate Hk; destruct oa, ob; try discriminate Ho; reflexivity.
+  - intro H. injection H as -> -> -> -> ->. repeat split; [destruct kb|destruct ob]; reflexivity.
+Qed.
+
+Lemma jstatus_eqb_iff a b : jstatus_eqb a b = true <-> a = b.
+Proof.
+  destruct a as [s d], b as [s' d']. unfold jstatus_eqb. cbn [fst snd]. split.
+  - destruct s, s', d, d'; intro H; try discriminate H; reflexivity.
+  - intro H. injection H as -> ->. destruct s', d'; reflexivity.
+Qed.
+
+Lemma is_finish_of_iff j en : is_finish_of j en = true <-> exists st, e_mark en = Some (MFinish j st).
+Proof.
+  unfold is_finish_of. destruct (e_mark en) as [[| | | | | |j' st|]|]; split; intro H; try discriminate H;
+    try (destruct H as (st' & H); discriminate H).
+  - apply job_same_iff in H. subst. exists st. reflexivity.
+  - destruct H as (st' & H). injection H as -> _. apply job_same_iff. reflexivity.
+Qed.
+
+Lemma is_start_of_iff j en : is_start_of j en = true <-> e_mark en = Some (MStart j).
+Proof.
+  unfold is_start_of. destruct (e_mark en) as [[| | | | |j'| |]|]; split; intro H; try discriminate H.
+  - apply job_same_iff in H. subst. reflexivity.
+  - injection H as ->. apply job_same_iff. reflexivity.
+Qed.
+
+Definition served_at (wend : wflag) (rest : list entry) : Prop :=
+  forall k j, mark_at rest k (MStart j) ->
+    (exists k' st, k < k' /\ mark_at rest k' (MFinish j st)) \/ wend = WBusy.
+
+Lemma served_go_iff wend rest : served_go wend rest = true <-> served_at wend rest.
+Proof.
+  induction rest as [|en tl IH]; cbn [served_go].
+  - split; [|reflexivity]. intros _ k j (x & Hn & _). destruct k; discriminate Hn.
+  - rewrite andb_true_iff, IH. split.
+    + intros (Hhd & Htl) k j HS. destruct k as [|k].
+      * destruct HS as (x & Hn & Hm). cbn in Hn. injection Hn as <-. rewrite Hm in Hhd.
+        apply orb_true_iff in Hhd as [Hf|Hw].
+        -- left. apply existsb_nth in Hf as (k' & x & Hk' & Hx). apply is_finish_of_iff in Hx as (st & Hx).
+           exists (S k'), st. split; [lia|]. exists x. split; assumption.
+        -- right. destruct wend; try discriminate Hw; reflexivity.
+      * destruct HS as (x & Hn & Hm). cbn in Hn.
+        destruct (Htl k j) as [(k' & st & Hk & Hf)|R]; [exists x; split; assumption| |right; exact R].
+        left. exists (S k'), st. split; [lia|apply mark_at_cons; exact Hf].
+    + intro H. split.
+      * destruct (e_mark en) as [[| | | | |j| |]|] eqn:Em; try reflexivity.
+        destruct (H 0 j) as [(k' & st & Hk & Hf)|R]; [exists en; split; [reflexivity|exact Em]| |].
+        -- apply orb_true_iff. left. destruct k' as [|k']; [lia|]. destruct Hf as (x & Hn & Hm). cbn in Hn.
+           apply existsb_nth. exists k', x. split; [exact Hn|]. apply is_finish_of_iff. exists st. exact Hm.
+        -- apply orb_true_iff. right. rewrite R. reflexivity.
+      * intros k j HS. destruct (H (S k) j) as [(k' & st & Hk & Hf)|R]; [apply mark_at_cons; exact HS| |right; exact R].
+        left. destruct k' as [|k']; [lia|]. exists k', st. split; [lia|].
+        destruct Hf as (x & Hn & Hm). exists x. split; assumption.
+Qed.
+
+Theorem served_b_iff h wend : served_b h wend = true <-> served h wend.
+Proof. unfold served_b. rewrite served_go_iff. reflexivity. Qed.
+
+Definition finish_ok (en : entry) (j : job) (st : jstatus) : Prop :=
+  e_current en = None /\ hd_error (e_done en) = Some (j, st) /\ e_worker en = WAtGet
+  /\ fst st = spec_status (jout j).
+
+Definition worker_at (bef rest : list entry) : Prop :=
+  forall k en, nth_error rest k = Some en ->
+    e_worker en <> WIsDead
+    /\ (forall j, e_mark en <> Some (MDied j))
+    /\ (forall j st, e_mark en = Some (MFinish j st) ->
+          finish_ok en j st
+          /\ ((exists x, In x bef /\ e_mark x = Some (MStart j))
+              \/ exists k', k' < k /\ mark_at rest k' (MStart j))).
+
+Lemma status_kind_eqb_iff a b : status_kind_eqb a b = true <-> a = b.
+Proof. destruct a, b; split; intro H; try discriminate H; reflexivity. Qed.
+
+Lemma finish_cond_iff en j st bef :
+  (match e_current en with None => true | Some _ => false end
+   && match e_done en with (j', st') :: _ => job_same j' j && jstatus_eqb st' st | [] => false end
+   && match e_worker en with WAtGet => true | _ => false end
+   && status_kind_eqb (fst st) (spec_status (jout j))
+   && existsb (is_start_of j) bef) = true
+  <-> finish_ok en j st /\ exists x, In x bef /\ e_mark x = Some (MStart j).
+Proof.
+  unfold finish_ok. rewrite !andb_true_iff, status_kind_eqb_iff, existsb_exists. split.
+  - intros ((((H1 & H2) & H3) & H4) & (x & Hx & Hs)). split; [|exists x; split; [exact Hx|apply is_start_of_iff; exact Hs]].
+    repeat split.
+    + destruct (e_current en); [discriminate H1|reflexivity].
+    + destruct (e_done en) as [|[j' st'] d]; [discriminate H2|]. apply andb_true_iff in H2 as (A & B).
+      apply job_same_iff in A. apply jstatus_eqb_iff in B. subst. reflexivity.
+    + destruct (e_worker en); try discriminate H3; reflexivity.
+    + exact H4.
+  - intros ((H1 & H2 & H3 & H4) & (x & Hx & Hs)). repeat split.
+    + rewrite H1. reflexivity.
+    + destruct (e_done en) as [|[j' st'] d]; [discriminate H2|]. cbn in H2. injection H2 as -> ->.
+      apply andb_true_iff. split; [apply job_same_iff|apply jstatus_eqb_iff]; reflexivity.
+    + rewrite H3. reflexivity.
+    + exact H4.
+    + exists x. split; [exact Hx|apply is_start_of_iff; exact Hs].
+Qed.
+
+Lemma worker_go_iff rest : forall bef, worker_go bef rest = true <-> worker_at bef rest.
+Proof.
+  induction rest as [|en tl IH]; intro bef; cbn [worker_go].
+  - split; [|reflexivity]. intros _ k en Hn. destruct k; discriminate Hn.
+  - rewrite !andb_true_iff, IH. split.
+    + intros ((Hw & Hm) & Htl) k x Hn. destruct k as [|k].
+      * cbn in Hn. injection Hn as <-. split; [intro E; rewrite E in Hw; discriminate Hw|].
+        split; [intros j E; rewrite E in Hm; discriminate Hm|].
+        intros j st E. rewrite E in Hm. apply finish_cond_iff in Hm as (F & S). split; [exact F|left; exact S].
+      * cbn in Hn. destruct (Htl k x Hn) as (A & B & C). split; [exact A|]. split; [exact B|].
+        intros j st E. destruct (C j st E) as (F & [(y & [<-|Hy] & Hs)|(k' & Hk & Hs)]); (split; [exact F|]).
+        -- right. exists 0. split; [lia|]. exists en. split; [reflexivity|exact Hs].
+        -- left. exists y. split; assumption.
+        -- right. exists (S k'). split; [lia|apply mark_at_cons; exact Hs].
+    + intro H. split; [split|].
+      * destruct (H 0 en eq_refl) as (A & _). destruct (e_worker en); try reflexivity. contradiction.
+      * destruct (H 0 en eq_refl) as (_ & B & C). destruct (e_mark en) as [[| | | | | |j st|j]|] eqn:Em; try reflexivity.
+        -- destruct (C j st eq_refl) as (F & [S|(k' & Hk & _)]); [|lia]. apply finish_cond_iff. split; assumption.
+        -- exfalso. exact (B j eq_refl).
+      * intros k x Hn. destruct (H (S k) x Hn) as (A & B & C). split; [exact A|]. split; [exact B|].
+        intros j st E. destruct (C j st E) as (F & [(y & Hy & Hs)|(k' & Hk & Hs)]); (split; [exact F|]).
+        -- left. exists y. split; [right; exact Hy|exact Hs].
+        -- destruct k' as [|k'].
+           ++ left. destruct Hs as (y & Hy & Hs). cbn in Hy. injection Hy as <-. exists en. split; [left; reflexivity|exact Hs].
+           ++ right. exists k'. split; [lia|]. destruct Hs as (y & Hy & Hs). exists y. split; assumption.
+Qed.
+
+Theorem worker_b_iff h : worker_b h = true <-> worker_ok h.
+Proof.
+  unfold worker_b. rewrite worker_go_iff. unfold worker_at, worker_ok, finish_ok. split.
+  - intros H k en Hn. destruct (H k en Hn) as (A & B & C). split; [exact A|]. split; [exact B|].
+    intros j st E. destruct (C j st E) as ((F1 & F2 & F3 & F4) & [(x & [] & _)|S]). repeat split; assumption.
+  - intros H k en Hn. destruct (H k en Hn) as (A & B & C). split; [exact A|]. split; [exact B|].
+    intros j st E. destruct (C j st E) as (F1 & F2 & F3 & F4 & S). split; [repeat split; assumption|right; exact S].
+Qed.
+
 (* ------------------------------------------------------------------ non-vacuity *)
 
 Definition exP1a : job := mkJob KPull 0 1 10 OSilent.
